@@ -57,6 +57,7 @@ class Summ:
         self.role = {ps[0]: "S", ps[1]: "T"}
         self.lists: Dict[str, List[List[Seg]]] = {}
         self.vars: Dict[str, List[Seg]] = {}          # plain named index lists (`row_indices = []`)
+        self.lol: Dict[str, List[List[Seg]]] = {}     # names bound to a sequence of index lists (`operands = [rows, cols]`)
         self.dicts: Dict[str, Tuple[str, list]] = {}
         self.env: Dict[str, object] = {}
         self.counters: Set[str] = set()
@@ -72,8 +73,38 @@ class Summ:
         return self.result
 
     def block(self, stmts, loops, facts):
-        for s in stmts:
+        for i, s in enumerate(stmts):
+            # `if x [not] in T: …; continue`  ==  the rest of the loop body runs under the opposite fact
+            if isinstance(s, ast.If) and not s.orelse and s.body and isinstance(s.body[-1], ast.Continue) and self.elem(loops) is not None:
+                fb = self.membership_fact(s.test, loops)
+                if fb is not None:
+                    f_b, f_o = fb
+                    if f_b is True:
+                        self.block(s.body[:-1], loops, facts)
+                        return
+                    if f_b is False:
+                        continue
+                    env0 = dict(self.env)
+                    self.block(s.body[:-1], loops, facts | {f_b})
+                    self.env = env0
+                    self.block(stmts[i + 1:], loops, facts | {f_o})
+                    return
             self.stmt(s, loops, facts)
+
+    def membership_fact(self, t, loops):
+        """(fact if true, fact if false) for `<loop element> [not] in <role list>`; (True/False, None) when it is decided"""
+        neg = False
+        if isinstance(t, ast.UnaryOp) and isinstance(t.op, ast.Not):
+            t, neg = t.operand, True
+        el = self.elem(loops)
+        if isinstance(t, ast.Compare) and len(t.ops) == 1 and isinstance(t.ops[0], (ast.In, ast.NotIn)) and isinstance(t.comparators[0], ast.Name) \
+                and t.comparators[0].id in self.role and el is not None and src(t.left) == el[1]:
+            pos = isinstance(t.ops[0], ast.In) != neg
+            l = self.role[t.comparators[0].id]
+            if l == el[2]:
+                return (pos, None)
+            return (("in" if pos else "notin", l), ("notin" if pos else "in", l))
+        return None
 
     @staticmethod
     def elem(loops):
@@ -140,15 +171,34 @@ class Summ:
             return -n.operand.value
         if isinstance(n, ast.Name) and isinstance(self.env.get(n.id), int):
             return self.env[n.id]
+        if isinstance(n, ast.BinOp) and isinstance(n.op, (ast.Add, ast.Sub, ast.Mult)):
+            a, b = self.const_int(n.left), self.const_int(n.right)
+            if a is not None and b is not None:
+                return a + b if isinstance(n.op, ast.Add) else a - b if isinstance(n.op, ast.Sub) else a * b
+        return None
+
+    def _range_gen(self, g) -> Optional[int]:
+        if isinstance(g.iter, ast.Call) and src(g.iter.func) == "range" and len(g.iter.args) == 1 and not g.ifs and isinstance(g.target, ast.Name):
+            return self.const_int(g.iter.args[0])
         return None
 
     def role_comp(self, comp) -> bool:
-        return isinstance(comp, (ast.ListComp, ast.GeneratorExp)) and len(comp.generators) == 1 and isinstance(comp.generators[0].iter, ast.Name) \
-            and comp.generators[0].iter.id in self.role and not comp.generators[0].ifs and isinstance(comp.generators[0].target, ast.Name)
+        if not isinstance(comp, (ast.ListComp, ast.GeneratorExp)) or not comp.generators:
+            return False
+        *lead, g = comp.generators
+        return all(self._range_gen(x) is not None for x in lead) and isinstance(g.iter, ast.Name) and g.iter.id in self.role and not g.ifs and isinstance(g.target, ast.Name)
 
-    def emit_comp(self, lr: List[Seg], comp, loops, facts):
-        g = comp.generators[0]
-        lp = loops + [("elem", src(g.target), self.role[g.iter.id], id(comp))]
+    def emit_comp(self, lr: List[Seg], comp, loops, facts, lead=None):
+        gens = list(comp.generators) if lead is None else lead
+        if len(gens) > 1:
+            # [f(i, s) for i in range(k) for s in xs]: the outer counter is unrolled like a `for i in range(k)` statement
+            g0 = gens[0]
+            for k in range(self._range_gen(g0)):
+                self.env[g0.target.id] = k
+                self.emit_comp(lr, comp, loops + [("pass", g0.target.id, k)], facts, gens[1:])
+            return
+        g = gens[0]
+        lp = loops + [("elem", src(g.target), self.role[g.iter.id], (id(comp), self.passes(loops)))]
         self.emit(lr, self.item(comp.elt, lp, facts), lp, facts)
 
     def extend_with(self, lr: List[Seg], val, loops, facts) -> bool:
@@ -210,14 +260,124 @@ class Summ:
             return ("sym", ("const", node.value))      # one fixed letter shared by every member it is given to
         raise Incomplete("index expression " + src(node)[:40])
 
+    def lol_ref(self, node) -> Optional[List[List[Seg]]]:
+        """a sequence of index lists: [rows, cols], einsum_list_list, einsum_list_list[:1], a name bound to one of these"""
+        if isinstance(node, ast.Name) and node.id in self.lol:
+            return self.lol[node.id]
+        if isinstance(node, ast.Name) and node.id in self.lists:
+            return self.lists[node.id]
+        if isinstance(node, (ast.List, ast.Tuple)) and node.elts:
+            refs = [self.list_ref(e) for e in node.elts]
+            if all(r is not None for r in refs):
+                return refs
+        if isinstance(node, ast.Subscript) and isinstance(node.slice, ast.Slice) and isinstance(node.value, ast.Name) and (node.value.id in self.lists or node.value.id in self.lol) \
+                and node.slice.step is None:
+            base = self.lists.get(node.value.id) or self.lol[node.value.id]
+            lo = self.const_int(node.slice.lower) if node.slice.lower is not None else 0
+            hi = self.const_int(node.slice.upper) if node.slice.upper is not None else len(base)
+            if lo is not None and hi is not None:
+                return base[lo:hi]
+        return None
+
     def list_ref(self, node) -> Optional[List[Seg]]:
         if isinstance(node, ast.Name) and node.id in self.vars:
             return self.vars[node.id]
+        if isinstance(node, ast.Subscript) and isinstance(node.value, ast.Name) and node.value.id in self.lol:
+            k = self.const_int(node.slice)
+            if k is not None and -len(self.lol[node.value.id]) <= k < len(self.lol[node.value.id]):
+                return self.lol[node.value.id][k]
         if isinstance(node, ast.Subscript) and isinstance(node.value, ast.Name) and node.value.id in self.lists:
             k = self.const_int(node.slice)
             if k is not None and -len(self.lists[node.value.id]) <= k < len(self.lists[node.value.id]):
                 return self.lists[node.value.id][k]
         return None
+
+    def strval(self, e) -> list:
+        """symbolic value of a string expression: literal text and formatted index lists"""
+        if isinstance(e, ast.Constant) and isinstance(e.value, str):
+            return [e.value]
+        if isinstance(e, ast.Name):
+            v = self.env.get(e.id)
+            if isinstance(v, tuple) and v and v[0] == "fmtidx":
+                return [("S", self.lists[v[1]][v[2]])]
+            if isinstance(v, tuple) and v and v[0] == "fmtvar":
+                return [("S", v[1])]
+            if isinstance(v, tuple) and v and v[0] == "fstr":
+                return self.strval(v[1])
+            if isinstance(v, tuple) and v and v[0] == "strval":
+                return v[1]
+            raise Incomplete(f"`{e.id}` is not a formatted index list")
+        if isinstance(e, ast.Subscript) and isinstance(e.value, ast.Name):
+            base = self.derived.get(e.value.id, e.value.id)
+            k = self.const_int(e.slice)
+            if base in self.lists and k is not None:
+                return [("S", self.lists[base][k])]
+            raise Incomplete("unrecognised piece of the returned string")
+        if isinstance(e, ast.JoinedStr):
+            out = []
+            for part in e.values:
+                if isinstance(part, ast.Constant):
+                    out.append(str(part.value))
+                elif isinstance(part, ast.FormattedValue):
+                    out += self.strval(part.value)
+                else:
+                    raise Incomplete("unrecognised piece of the returned string")
+            return out
+        if isinstance(e, ast.BinOp) and isinstance(e.op, ast.Add):
+            return self.strval(e.left) + self.strval(e.right)
+        if isinstance(e, ast.Call) and isinstance(e.func, ast.Attribute) and e.func.attr == "join" and len(e.args) == 1 and isinstance(e.func.value, ast.Constant):
+            sep, arg = e.func.value.value, e.args[0]
+            if sep == "":
+                # "".join(chr(97 + i) for i in <index list>)
+                if isinstance(arg, (ast.ListComp, ast.GeneratorExp)) and len(arg.generators) == 1 and "chr(" in src(arg.elt):
+                    lr = self.list_ref(arg.generators[0].iter)
+                    if lr is not None:
+                        return [("S", lr)]
+                raise Incomplete("join of something that is not an index list")
+            if sep == ",":
+                # ",".join(<letters of v> for v in <sequence of index lists>)
+                if isinstance(arg, (ast.ListComp, ast.GeneratorExp)) and len(arg.generators) == 1 and isinstance(arg.generators[0].target, ast.Name):
+                    ll = self.lol_ref(arg.generators[0].iter)
+                    if ll is not None:
+                        vname = arg.generators[0].target.id
+                        outl = []
+                        for lst in ll:
+                            saved = self.vars.get(vname)
+                            self.vars[vname] = lst
+                            try:
+                                pv = self.strval(arg.elt)
+                            finally:
+                                if saved is None:
+                                    self.vars.pop(vname, None)
+                                else:
+                                    self.vars[vname] = saved
+                            if len(pv) != 1 or not isinstance(pv[0], tuple) or pv[0][0] != "S":
+                                raise Incomplete("comma-joined element is not one formatted index list")
+                            outl.append(pv[0][1])
+                        return [("J", outl)]
+                # ",".join([a_str, b_str])
+                if isinstance(arg, (ast.List, ast.Tuple)):
+                    outl = []
+                    for x in arg.elts:
+                        pv = self.strval(x)
+                        if len(pv) != 1 or not isinstance(pv[0], tuple) or pv[0][0] != "S":
+                            raise Incomplete("comma-joined element is not one formatted index list")
+                        outl.append(pv[0][1])
+                    return [("J", outl)]
+                raise Incomplete("comma join of something else")
+        if isinstance(e, ast.Call) and isinstance(e.func, ast.Attribute) and e.func.attr == "format" and isinstance(e.func.value, ast.Constant) and isinstance(e.func.value.value, str) \
+                and not e.keywords:
+            fmt = e.func.value.value
+            parts = fmt.split("{}")
+            if len(parts) != len(e.args) + 1:
+                raise Incomplete("format string with named/numbered fields")
+            out = [parts[0]] if parts[0] else []
+            for a, tail in zip(e.args, parts[1:]):
+                out += self.strval(a)
+                if tail:
+                    out.append(tail)
+            return out
+        raise Incomplete("string expression " + src(e)[:40])
 
     def stmt(self, s, loops, facts):
         if isinstance(s, ast.Expr) and isinstance(s.value, ast.Constant):
@@ -235,6 +395,11 @@ class Summ:
             if isinstance(tgt, ast.Name) and isinstance(val, ast.List) and not val.elts:
                 self.vars[tgt.id] = []
                 return
+            if isinstance(tgt, ast.Name):
+                ll = self.lol_ref(val)
+                if ll is not None and not (isinstance(val, ast.Name) and val.id in self.vars):
+                    self.lol[tgt.id] = ll
+                    return
             if isinstance(tgt, ast.Name) and isinstance(val, ast.Name) and val.id in self.vars:
                 self.vars[tgt.id] = self.vars[val.id]           # an alias: both names denote the same list
                 return
@@ -282,12 +447,12 @@ class Summ:
                 self.dicts[tgt.value.id][1].append((el[2], facts, self.item(val, loops, facts)))
                 return
             lr = self.list_ref(tgt)
-            if lr is not None and isinstance(val, ast.ListComp) and len(val.generators) == 1 and isinstance(val.generators[0].iter, ast.Name) \
-                    and val.generators[0].iter.id in self.role and not val.generators[0].ifs:
-                g = val.generators[0]
-                lp = loops + [("elem", src(g.target), self.role[g.iter.id], id(val))]
+            if lr is not None and isinstance(val, ast.ListComp) and self.role_comp(val):
                 del lr[:]
-                self.emit(lr, self.item(val.elt, lp, facts), lp, facts)
+                self.emit_comp(lr, val, loops, facts)
+                return
+            if isinstance(tgt, ast.Name) and isinstance(val, ast.Subscript) and self.list_ref(val) is not None:
+                self.vars[tgt.id] = self.list_ref(val)          # a name for one of the index lists
                 return
             if isinstance(tgt, ast.Name) and isinstance(val, (ast.Subscript, ast.Name)):
                 try:
@@ -322,6 +487,9 @@ class Summ:
                     return
             if isinstance(tgt, ast.Name) and isinstance(val, ast.JoinedStr):
                 self.env[tgt.id] = ("fstr", val)
+                return
+            if isinstance(tgt, ast.Name) and isinstance(val, ast.Call) and isinstance(val.func, ast.Attribute) and val.func.attr in ("join", "format") and isinstance(val.func.value, ast.Constant):
+                self.env[tgt.id] = ("strval", self.strval(val))
                 return
             raise Incomplete("assignment " + src(s)[:50])
         if isinstance(s, ast.Expr) and isinstance(s.value, ast.Call) and isinstance(s.value.func, ast.Attribute) and s.value.func.attr == "append" and len(s.value.args) == 1:
@@ -368,7 +536,27 @@ class Summ:
                     self.block(s.body, loops + [("pass", src(s.target), k)], facts)
                 return
             if isinstance(it, ast.Name) and it.id in self.role and isinstance(s.target, ast.Name):
-                self.block(s.body, loops + [("elem", s.target.id, self.role[it.id], id(s))], frozenset())
+                self.block(s.body, loops + [("elem", s.target.id, self.role[it.id], (id(s), self.passes(loops)))], frozenset())
+                return
+            # for s, c in zip(xs, counter): one fresh index per member, drawn as the loop advances
+            if isinstance(it, ast.Call) and src(it.func) == "zip" and len(it.args) == 2 and isinstance(it.args[0], ast.Name) and it.args[0].id in self.role \
+                    and src(it.args[1]) in self.counters and isinstance(s.target, ast.Tuple) and len(s.target.elts) == 2 and all(isinstance(e, ast.Name) for e in s.target.elts):
+                lp = loops + [("elem", s.target.elts[0].id, self.role[it.args[0].id], (id(s), self.passes(loops)))]
+                self.env[s.target.elts[1].id] = self.fresh(s, lp)
+                self.block(s.body, lp, frozenset())
+                return
+            # for k, lst in enumerate(<sequence of index lists>): unrolled, `lst` names the k-th list
+            if isinstance(it, ast.Call) and src(it.func) == "enumerate" and len(it.args) == 1 and self.lol_ref(it.args[0]) is not None \
+                    and isinstance(s.target, ast.Tuple) and len(s.target.elts) == 2 and all(isinstance(e, ast.Name) for e in s.target.elts):
+                for k, lst in enumerate(self.lol_ref(it.args[0])):
+                    self.env[s.target.elts[0].id] = k
+                    self.vars[s.target.elts[1].id] = lst
+                    self.block(s.body, loops + [("pass", s.target.elts[0].id, k)], facts)
+                return
+            if self.lol_ref(it) is not None and isinstance(s.target, ast.Name):
+                for k, lst in enumerate(self.lol_ref(it)):
+                    self.vars[s.target.id] = lst
+                    self.block(s.body, loops + [("pass", s.target.id, k)], facts)
                 return
             raise Incomplete("loop over " + src(it)[:40])
         if isinstance(s, ast.If):
@@ -408,30 +596,19 @@ class Summ:
             v = s.value
             if isinstance(v, ast.Name) and isinstance(self.env.get(v.id), tuple) and self.env[v.id][0] == "fstr":
                 v = self.env[v.id][1]
-            if not isinstance(v, ast.JoinedStr):
-                raise Incomplete("return value is not an f-string of the formatted lists")
+            pieces = self.strval(v)
+            # pieces: a flat list of literal text and ("S", index list) / ("J", [index lists]) values
             txt = ""
             order: List[List[Seg]] = []
-            for part in v.values:
-                if isinstance(part, ast.Constant):
-                    txt += str(part.value)
-                elif isinstance(part, ast.FormattedValue) and isinstance(part.value, ast.Name) and isinstance(self.env.get(part.value.id), tuple) and self.env[part.value.id][0] == "fmtidx":
-                    _, base, k = self.env[part.value.id]
-                    order.append(self.lists[base][k])
-                    txt += "{}"
-                elif isinstance(part, ast.FormattedValue) and isinstance(part.value, ast.Name) and isinstance(self.env.get(part.value.id), tuple) and self.env[part.value.id][0] == "fmtvar":
-                    order.append(self.env[part.value.id][1])
-                    txt += "{}"
-                elif isinstance(part, ast.FormattedValue) and isinstance(part.value, ast.Subscript) and isinstance(part.value.value, ast.Name):
-                    nm = part.value.value.id
-                    base = self.derived.get(nm, nm)
-                    k = self.const_int(part.value.slice)
-                    if base not in self.lists or k is None:
-                        raise Incomplete("unrecognised piece of the returned string")
-                    order.append(self.lists[base][k])
+            for pc in pieces:
+                if isinstance(pc, str):
+                    txt += pc
+                elif pc[0] == "S":
+                    order.append(pc[1])
                     txt += "{}"
                 else:
-                    raise Incomplete("unrecognised piece of the returned string")
+                    order += list(pc[1])
+                    txt += ",".join("{}" for _ in pc[1])
             if "->" not in txt:
                 raise Incomplete("returned string has no `->`")
             lhs, rhs = txt.split("->")
@@ -745,6 +922,64 @@ def esccall(repo: Repo) -> List[Ob]:
                          obs.append(bad("ESCCALL", fi, f"reshape:{recv}", ("C01", "C02", "C03"), n, f"the stored state is reshaped with `{t[:60]}` – not the member dimensions in storage order")))
     if sites < 12:
         raise AnalysisError(f"ESCCALL: {sites} generator call sites (floor 12)")
+    # a reduced tensor built with a storage-order-preserving string (trace_out_* / measure_*) has its factors in *storage* order;
+    # an operator supplied by the caller is laid out over the operands in the order *given*.  Multiplying the two is only
+    # meaningful after the product space itself was reordered to the operand order in the same function.
+    for fi in [f for f in repo.cls("ProductState").methods.values() if any(p_ in ("operators", "operator", "operation") for p_ in f.params)]:
+        fn = fi.node
+        gen_strings = {}
+        for a in walk_no_nested(fn):
+            if isinstance(a, ast.Assign) and len(a.targets) == 1 and isinstance(a.targets[0], ast.Name) and isinstance(a.value, ast.Call):
+                d = (dotted(a.value.func) or "").split(".")[-1]
+                if d in ("trace_out_matrix", "trace_out_vector", "measure_matrix", "measure_vector"):
+                    gen_strings[a.targets[0].id] = d
+        if not gen_strings:
+            continue
+        storage = {}       # local name -> generator it came from
+        for _ in range(3):
+            for a in walk_no_nested(fn):
+                if isinstance(a, ast.Assign) and len(a.targets) == 1 and isinstance(a.targets[0], ast.Name):
+                    v = a.value
+                    base = v
+                    while method_call(base) and method_call(base)[1] in ("reshape", "astype", "copy"):
+                        base = method_call(base)[0]
+                    if isinstance(base, ast.Call) and call_np(base) == "einsum" and len(base.args) == 2 and isinstance(base.args[0], ast.Name) and base.args[0].id in gen_strings:
+                        storage[a.targets[0].id] = gen_strings[base.args[0].id]
+                    elif isinstance(base, ast.Name) and base.id in storage and base is not v:
+                        storage[a.targets[0].id] = storage[base.id]
+        if not storage:
+            continue
+        ops_names = {"operators", "operator"} | {src(l.target) for l in walk_no_nested(fn) if isinstance(l, (ast.For, ast.comprehension)) and "operators" in src(l.iter)}
+        for _ in range(2):
+            for a in walk_no_nested(fn):
+                if isinstance(a, ast.Assign) and len(a.targets) == 1 and isinstance(a.targets[0], ast.Name) and any(isinstance(x, ast.Name) and x.id in ops_names for x in ast.walk(a.value)) \
+                        and a.targets[0].id not in storage:
+                    ops_names.add(a.targets[0].id)
+        cfg = CFG(fn)
+        ro = {n for n in cfg.nodes for x in walk_node(n) if method_call(x) and method_call(x)[1] == "reorder" and src(method_call(x)[0]) == "self"}
+        k = 0
+        for n in cfg.nodes:
+            for x in walk_node(n):
+                operands = None
+                if isinstance(x, ast.BinOp) and isinstance(x.op, ast.MatMult):
+                    operands = [x.left, x.right]
+                elif isinstance(x, ast.Call) and call_np(x) in ("matmul", "dot", "tensordot"):
+                    operands = list(x.args[:2])
+                elif isinstance(x, ast.Call) and call_np(x) == "einsum" and len(x.args) >= 3:
+                    operands = list(x.args[1:])
+                if not operands:
+                    continue
+                names = [{y.id for y in ast.walk(o) if isinstance(y, ast.Name)} for o in operands]
+                has_storage = any(nm & set(storage) for nm in names)
+                has_op = any((nm & ops_names) and not (nm & set(storage)) for nm in names)
+                if has_storage and has_op:
+                    k += 1
+                    good = bool(ro) and cfg.must_pass_through(n, ro)
+                    st_name = sorted(set().union(*names) & set(storage))[0]
+                    (obs.append(ok("ESCCALL", fi, f"storage-order-meets-operand-order#{k}", ("C09", "C06", "C01", "C03"), x, "the product space was reordered to the operand order first")) if good else
+                     obs.append(bad("ESCCALL", fi, f"storage-order-meets-operand-order#{k}", ("C09", "C06", "C01", "C03"), x,
+                                    f"`{st_name}` comes from ESC.{storage[st_name]} and keeps the members in *storage* order, but it is multiplied with a caller-supplied operator whose factors follow the order "
+                                    "the operands were *given* in: unless the product space was reordered to that order, the operator factors act on the wrong subsystems")))
     # CompositeEnvelope.trace_out: reorder(*states) precedes ps.trace_out(*states) (the generator keeps storage order)
     ce = repo.func("CompositeEnvelope.trace_out")
     cfg = CFG(ce.node)
